@@ -537,6 +537,10 @@ func (env *SpecEnv) evalBinary(e *Expr) TV {
 		} else if oka != okb {
 			sfail("bytes(..) compared with a non-content value: %s", e)
 		} else {
+			if a.T != nil && b.T != nil && !types.Identical(a.T.Underlying(), b.T.Underlying()) &&
+				!(isInt(a.T) && isInt(b.T) && intWidth(a.T) == intWidth(b.T)) && !isUntypedNil(a.T) && !isUntypedNil(b.T) {
+				sfail("mismatched types in %s: %s vs %s", e, a.T, b.T)
+			}
 			t = eqVal(a.T, a.V, b.V)
 		}
 		if e.Op == "!=" {
@@ -921,6 +925,36 @@ func (env *SpecEnv) evalCall(e *Expr) TV {
 				sfail("sameRegion() needs two slices")
 			}
 			return boolTV(and(eq(a.Ref, b.Ref), not(eq(a.Ref, "0"))))
+		case "allnonnil":
+			// allnonnil(m): every value stored in map m is a non-nil pointer
+			x := env.eval(args[0])
+			mt, ok := x.T.Underlying().(*types.Map)
+			if !ok {
+				sfail("allnonnil() needs a map")
+			}
+			if _, isPtr := mt.Elem().Underlying().(*types.Pointer); !isPtr {
+				sfail("allnonnil() needs a map to pointers")
+			}
+			m := x.V.(Scalar).T
+			ks := fc.mapKeySort(mt)
+			name := "map|" + typeName(mt)
+			ph := fc.heapSym(env.st, name+"|present", "(Array Int (Array "+ks+" Bool))")
+			vh := fc.heapSym(env.st, name+"|val", "(Array Int (Array "+ks+" Int))")
+			k := fc.smt.freshName("k")
+			return boolTV(fmt.Sprintf("(forall ((%s %s)) (! (=> (select (select %s %s) %s) (not (= (select (select %s %s) %s) 0))) :pattern ((select (select %s %s) %s))))", k, ks, ph, m, k, vh, m, k, vh, m, k))
+		case "unchanged":
+			// unchanged(m): the contents of map m are the same as in the old state
+			x := env.eval(args[0])
+			mt, ok := x.T.Underlying().(*types.Map)
+			if !ok || env.old == nil {
+				sfail("unchanged() needs a map (and an old state)")
+			}
+			m := x.V.(Scalar).T
+			var cs []string
+			for _, ks := range fc.mapKeys(mt) {
+				cs = append(cs, eq(app("select", fc.heapSym(env.st, ks.key, ks.sort), m), app("select", fc.heapSym(env.old, ks.key, ks.sort), m)))
+			}
+			return boolTV(and(cs...))
 		case "typeof":
 			x := env.eval(args[0])
 			return TV{Scalar{x.V.(IfaceV).Tag}, types.Typ[types.Int]}
